@@ -280,8 +280,17 @@ func (c *Ctx) Finish(spec *PropertySpec, start time.Time, evidencePath, knownPat
 	for k, v := range extra {
 		cov[k] = v
 	}
+	assumptions := append([]string{"the analysed tree is what is built: linux/amd64, no build tags, non-test files of the root package and vanguardgrpc", "go/types and go/ssa model the program faithfully; reflection and unsafe are not used by the analysed code paths"}, spec.Assumptions...)
+	if c.excepts == nil {
+		c.excepts = []string{}
+	}
+	if c.notes == nil {
+		c.notes = []string{}
+	}
+	cov["exceptions"] = c.excepts
+	cov["notes"] = c.notes
 	ev := evidence{PropertyID: spec.ID, Tier: c.Tier, Seed: seedFromEnv(), Level: "other", Coverage: cov,
-		Assumptions: spec.Assumptions, WallS: time.Since(start).Seconds(), Violations: violated}
+		Assumptions: assumptions, WallS: time.Since(start).Seconds(), Violations: violated}
 	if evidencePath != "" {
 		_ = os.MkdirAll(filepath.Dir(evidencePath), 0o755)
 		data, _ := json.MarshalIndent(ev, "", " ")
